@@ -261,17 +261,32 @@ namespace vlog {
     }
 
     // ------------------------------------------------------------------------------------------
-    // watchdog: if the harness does not finish within `ms`, write a {"e":"hang"} record, flush, exit 3
+    // watchdog: if the harness writes no record for `ms` milliseconds (no progress - a slow but progressing
+    // run on a loaded machine is not a hang), write a {"e":"hang"} record, flush, exit 3
     inline void start_watchdog(int ms)
     {
         std::thread([ms] {
-            std::this_thread::sleep_for(std::chrono::milliseconds(ms));
-            ev("hang").i("ms", ms).done();
-            FILE* f = g_path.empty() ? stdout : std::fopen(g_path.c_str(), "a");
-            if (!f) f = stdout;
-            flush_to(f, false);
-            std::fflush(f);
-            _exit(3);
+            std::uint64_t last = g_seq.load();
+            auto t0 = std::chrono::steady_clock::now();
+            for (;;)
+            {
+                std::this_thread::sleep_for(std::chrono::milliseconds(250));
+                std::uint64_t cur = g_seq.load();
+                auto now = std::chrono::steady_clock::now();
+                if (cur != last)
+                {
+                    last = cur;
+                    t0 = now;
+                    continue;
+                }
+                if (now - t0 < std::chrono::milliseconds(ms)) continue;
+                ev("hang").i("ms", ms).done();
+                FILE* f = g_path.empty() ? stdout : std::fopen(g_path.c_str(), "a");
+                if (!f) f = stdout;
+                flush_to(f, false);
+                std::fflush(f);
+                _exit(3);
+            }
         }).detach();
     }
 
